@@ -350,6 +350,14 @@ theorem inv_mod2_62_ni (v₁ v₂ : Sec) : (invMod262 v₁).tr = (invMod262 v₂
 theorem unsat_norm_ni (n : Nat) (m₁ v₁ m₂ v₂ : List Sec) (c₁ c₂ : Sec) :
     (unsatNorm n m₁ v₁ c₁).tr = (unsatNorm n m₂ v₂ c₂).tr := by simp
 
+/-- the parts of `Uint::gcd` and `Uint::inv_mod` around the safegcd call: the power-of-two bookkeeping (`trailing_zeros`,
+shifts by the SECRET count `k`, `inv_mod2k(k)`, the Garner step) is mask arithmetic -/
+theorem uint_gcd_operands_ni (n : Nat) (a₁ b₁ a₂ b₂ : List Sec) : (ugcdOperands n a₁ b₁).tr = (ugcdOperands n a₂ b₂).tr := by simp
+theorem uint_gcd_finish_ni (n : Nat) (r₁ r₂ : List Sec) (k₁ k₂ : Sec) : (ugcdFinish n r₁ k₁).tr = (ugcdFinish n r₂ k₂).tr := by simp
+theorem uint_inv_mod_split_ni (n : Nat) (m₁ m₂ : List Sec) : (uinvModSplit n m₁).tr = (uinvModSplit n m₂).tr := by simp
+theorem uint_inv_mod_finish_ni (n : Nat) (a₁ s₁ a₂ s₂ : List Sec) (k₁ k₂ : Sec) (ma₁ ma₂ : List Sec × Sec) :
+    (uinvModFinish n a₁ s₁ k₁ ma₁).tr = (uinvModFinish n a₂ s₂ k₂ ma₂).tr := by simp
+
 /-! ### extension round: special-modulus forms, `mul_mod`, `div_by_2`, linear combinations -/
 
 /-- `Uint::add_mod_special` / `sub_mod_special` / `mul_mod_special` (modulus `2^BITS − c`, `c` secret too), `double_mod` -/
@@ -425,9 +433,45 @@ theorem boxed_shr_trace_of_shift (n : Nat) (s : Sec) (a₁ a₂ : List Sec) :
     (boxedOverflowingShr n a₁ s).tr = (boxedOverflowingShr n a₂ s).tr := by
   rw [boxedOverflowingShr_tr, boxedOverflowingShr_tr]
 
+/-- `divsteps(e, f_0, g, inverse)`: two constant-time `bits()`, the DECLASSIFIED trip count `iterations(f_0.bits(), g.bits())`,
+then that many trips (each: `divsteps_trip_trace`) -/
+theorem divsteps_trace (n : Nat) (e f0 g : List Sec) (inv : Sec) :
+    (divsteps n e f0 g inv).tr =
+      unsatBitsT n ++ (unsatBitsT n ++
+        ((declassify (iterations (unsatBits n f0).val (unsatBits n g).val)).tr ++
+         (forN (declassify (iterations (unsatBits n f0).val (unsatBits n g).val)).val
+            (fun _ st => divstepsTrip n f0 inv st) (one, f0, g, zeros n, e)).tr)) := divsteps_tr n e f0 g inv
+/-- `Uint::inv_odd_mod` (`SafeGcdInverter::new(m, ONE).inv(v)`) = public conversions ++ `divsteps` ++ public tail
+(`eq`, `norm`, `to_uint`): whatever depends on the operands is inside `divsteps` -/
+theorem safegcd_inv_trace (n : Nat) (m v : List Sec) :
+    (safegcdInv n m v).tr = safegcdInvPreT n ++
+      ((divsteps (unsatLimbs n) (unsatFromUint n (unsatLimbs n) (uone n)).val (unsatFromUint n (unsatLimbs n) m).val
+          (unsatFromUint n (unsatLimbs n) v).val (invMod262 (limb m 0)).val).tr ++ safegcdInvPostT (unsatLimbs n) n) :=
+  safegcdInv_tr n m v
+/-- `SafeGcdInverter::gcd` likewise -/
+theorem safegcd_gcd_trace (n : Nat) (f g : List Sec) :
+    (safegcdGcd n f g).tr = safegcdGcdPreT n ++
+      ((divsteps (unsatLimbs n) (unsatOne (unsatLimbs n)) (unsatFromUint n (unsatLimbs n) f).val
+          (unsatFromUint n (unsatLimbs n) g).val (invMod262 (limb f 0)).val).tr ++ safegcdGcdPostT (unsatLimbs n) n) :=
+  safegcdGcd_tr n f g
+/-- `Uint::gcd` = a public prefix ++ the safegcd of the stripped operands ++ a public suffix -/
+theorem uint_gcd_trace (n : Nat) (a b : List Sec) :
+    (ugcd n a b).tr = ugcdOperandsT n ++
+      ((safegcdGcd n (ugcdOperands n a b).val.1 (ugcdOperands n a b).val.2.1).tr ++ ugcdFinishT n) := ugcd_tr n a b
+/-- `Uint::inv_mod` (any modulus) = a public prefix ++ `inv_odd_mod` modulo the odd part ++ a public suffix -/
+theorem uint_inv_mod_trace (n : Nat) (a m : List Sec) :
+    (uinvMod n a m).tr = uinvModSplitT n ++ ((safegcdInv n (uinvModSplit n m).val.1 a).tr ++ uinvModFinishT n) :=
+  uinvMod_tr n a m
+
 /-- `multi_exponentiate_bounded_exp` (`cnt` bases, `exponent_bits` public): bases and exponents secret -/
 theorem multi_exponentiate_trace_pub (n cnt ebits : Nat) (bes₁ bes₂ : List (List Sec × List Sec)) (m₁ o₁ m₂ o₂ : List Sec) (v₁ v₂ : Sec) :
     (multiExp n cnt bes₁ ebits m₁ o₁ v₁).tr = (multiExp n cnt bes₂ ebits m₂ o₂ v₂).tr := by simp
+/-- `Uint::div_rem_vartime` / `rem_vartime` ("variable only with respect to `rhs`"): for a fixed divisor the trace does not
+depend on the dividend; and once the divisor's bit length is fixed it depends on neither operand -/
+theorem div_rem_vartime_trace_pub (n : Nat) (d a₁ a₂ : List Sec) : (divRemVartime n a₁ d).tr = (divRemVartime n a₂ d).tr := by
+  rw [divRemVartime_tr, divRemVartime_tr]
+theorem div_rem_vartime_trace_of_bits (n dbits : Nat) (a₁ d₁ a₂ d₂ : List Sec) :
+    (divRemVartimeBody n dbits a₁ d₁).tr = (divRemVartimeBody n dbits a₂ d₂).tr := by simp
 /-- `rem_wide_vartime` once the divisor's bit length `dbits` is fixed: constant-time in dividend AND divisor -/
 theorem rem_wide_vartime_trace_of_bits (n dbits : Nat) (lo₁ hi₁ d₁ lo₂ hi₂ d₂ : List Sec) :
     (remWideBody n dbits lo₁ hi₁ d₁).tr = (remWideBody n dbits lo₂ hi₂ d₂).tr := by simp
@@ -520,6 +564,7 @@ example : squareWideDispatchSizes = [Extracted.squareWideDispatch0, Extracted.sq
 example : Extracted.karatsubaMaxReduceLimbs = 24 ∧ Extracted.karatsubaMinStartingLimbs = 32 ∧
     Extracted.karaSquareReduceFactor = 2 ∧ Extracted.boxedSquareStartFactor = 2 := by decide
 
+example : (divRemVartime 2 [] [ofNat 3, ofNat 0]).tr ≠ (divRemVartime 2 [] [ofNat 3, ofNat 1]).tr := by decide +kernel
 example : (multiExp 1 1 [] 4 [] [] zero).tr ≠ (multiExp 1 2 [] 4 [] [] zero).tr := by decide +kernel
 example : (remWideBody 2 64 [] [] []).tr ≠ (remWideBody 2 65 [] [] []).tr := by decide +kernel
 example : (lincombMonty 1 2 [] [] zero 0).tr ≠ (lincombMonty 1 2 [] [] zero 1).tr := by decide +kernel
